@@ -42,7 +42,7 @@ import numpy as np
 from . import common
 from .common import CaseResult, case_rng, nice, rat, Fraction
 from . import packages as pk
-from .c07 import gen_names, enc, names_line, read_names
+from .c07 import gen_names, enc, names_line, read_names, write_table_repr
 
 PID = 'C09'
 RULE = ('cases = (model names, row order of the convolved files, row order and blank padding of parameters.fits, 1-4 '
@@ -66,7 +66,11 @@ REQUIRED_BRANCHES = ['write_parameters', 'write_parameter_ranges', 'extract_para
                      'history_1', 'history_2', 'history_3', 'narrow_then_wide_single', 'narrow_then_wide_list',
                      'narrow_then_wide_file', 'wide_then_narrow', 'repeated_selector',
                      'extra_table_rows', 'param_nan', 'param_inf', 'fit_nan', 'fit_inf', 'range_all_nan',
-                     'parameters_rewritten', 'rewrite_added_column', 'refuse_dup_column', 'refuse_missing_key', 'missing_key_not_selected', 'refuse_no_model_name']
+                     'parameters_rewritten', 'rewrite_added_column',
+                     'table_names_S', 'table_names_U', 'model_name_column_first', 'model_name_column_middle', 'model_name_column_last',
+                     'column_dtype_f8', 'column_dtype_f4', 'column_dtype_f8_bigendian', 'column_dtype_i4', 'column_dtype_i8',
+                     'additional_typed_float', 'additional_typed_int_first', 'additional_typed_np_int', 'additional_typed_float32',
+                     'additional_typed_bool', 'additional_typed_mixed', 'refuse_dup_column', 'refuse_missing_key', 'missing_key_not_selected', 'refuse_no_model_name']
 ASSUMPTIONS = ['text outputs are parsed back to numbers and compared at the precision they are printed with '
                '(%10.3e / %10.3f / %11.3e); layout-only differences are not property violations',
                'selector thresholds are placed between attained values (C05 owns the selection rule itself)',
@@ -127,6 +131,15 @@ def gen_source(rng, nb, idx):
 
 
 
+def distinct_ints(rng, n, signed=True):
+    vals = []
+    while len(vals) < n:
+        v = float(rng.randint(-999 if signed else 1, 99999))
+        if v not in vals and v != 0.:
+            vals.append(v)
+    return vals
+
+
 def sprinkle(rng, vals, p):
     """replace some entries by NaN / +-inf (as strings, so that the case stays plain JSON)"""
     return [rng.choice(SPECIALS + ['nan']) if rng.random() < p else v for v in vals]
@@ -143,20 +156,26 @@ def gen_case(rng, directed=None, table_perm=None, n=None):
     if table_perm is not None:
         table = [names[i] for i in table_perm]
     ncols = directed.get('ncols') or rng.randint(1, 4)
-    cols = {COLNAMES[j]: distinct_values(rng, n) for j in range(ncols)}         # value per model index
+    # representation of parameters.fits: MODEL_NAME as bytes / unicode column, first / in the middle / last; numeric
+    # columns float64, float32, big-endian float64 or (integral values) int32 / int64
+    trepr = dict(name_dtype=rng.choice(['S', 'U']), name_pos=directed.get('name_pos', rng.choice(['first', 'first', 'middle', 'last'])),
+                 col_dtype=directed.get('col_dtype', rng.choice(['f8', 'f8', 'f4', '>f8', 'i4', 'i8'])))
+    intcols = trepr['col_dtype'] in ('i4', 'i8')
+    colvals = distinct_ints if intcols else distinct_values
+    cols = {COLNAMES[j]: colvals(rng, n) for j in range(ncols)}         # value per model index
     # rows of the parameter file for models that no fit ever names (np.isin really has to drop something)
     nextra = directed.get('nextra', rng.choice([0, 0, 0, 1, 2, 4]) if table_perm is None else 0)
     extra = []
     while len(extra) < nextra:
         x = gen_names(rng, 1, False)[0]
         if x not in names and x not in [e[0] for e in extra]:
-            extra.append([x, {c: nice(rng, 1e-3, 1e5, 3) for c in cols}])
+            extra.append([x, {c: (float(rng.randint(100000, 200000)) if intcols else nice(rng, 1e-3, 1e5, 3)) for c in cols}])
     for e in extra:
         table.insert(rng.randint(0, len(table)), e[0])
     pad = directed.get('pad', rng.random() < 0.5)
     table_names = [t + (' ' * rng.randint(1, max(1, min(3, 30 - len(t)))) if pad and len(t) < 30 and rng.random() < 0.6 else '')
                    for t in table]
-    special = directed.get('special', rng.random() < 0.2)
+    special = directed.get('special', rng.random() < 0.2) and not intcols
     if special:
         for c in list(cols)[rng.randint(0, 1):]:          # sometimes the first column stays finite (for the plots)
             cols[c] = sprinkle(rng, cols[c], 1. if (n > 1 and rng.random() < 0.15) else 0.35)
@@ -165,6 +184,21 @@ def gen_case(rng, directed=None, table_perm=None, n=None):
     if special and additional and rng.random() < 0.5:
         k0 = list(additional)[0]
         additional[k0] = dict(zip(names, sprinkle(rng, list(additional[k0].values()), 0.4)))
+    # how the user types the additional values: floats, a Python int first, numpy integers, float32, bools, mixtures
+    add_types = {}
+    for k_ in additional:
+        kind_ = directed.get('add_type', rng.choice(['float', 'float', 'int_first', 'np_int', 'float32', 'bool', 'mixed']))
+        if any(isinstance(v, str) for v in additional[k_].values()):
+            kind_ = 'float'
+        if kind_ == 'int_first':
+            additional[k_][names[0]] = float(rng.randint(0, 9))
+        elif kind_ == 'np_int':
+            additional[k_] = dict(zip(names, distinct_ints(rng, n)))
+        elif kind_ == 'bool':
+            additional[k_] = {nme: float(rng.random() < 0.5) for nme in names}
+        elif kind_ == 'mixed':
+            additional[k_] = {nme: (float(rng.randint(-5, 50)) if rng.random() < 0.5 else v) for nme, v in additional[k_].items()}
+        add_types[k_] = kind_
     nb = rng.randint(3, 5)
     mode = directed.get('mode', rng.choice(['fitter', 'direct']))
     form = directed.get('form', rng.choice(['file', 'single', 'list']))
@@ -221,6 +255,8 @@ def gen_case(rng, directed=None, table_perm=None, n=None):
         ex = pool[:rng.randint(1, len(pool))]
     # the two parameter plots: on finite columns only
     finite_cols = [c for c in cols if all(not isinstance(v, str) for v in cols[c])]
+    if trepr['col_dtype'] not in ('f8', '>f8'):
+        finite_cols = []          # the plots histogram the column in its own dtype: only float64 columns are plotted
     plots = None
     if finite_cols and directed.get('plots', rng.random() < 0.25):
         p1 = rng.choice(finite_cols)
@@ -252,19 +288,19 @@ def gen_case(rng, directed=None, table_perm=None, n=None):
         for ri in range(1, len(more) + 1):
             if ri > 1 and rng.random() < 0.5:
                 continue
-            ncols_ = {c: distinct_values(rng, n, signed=not (plots and plots['log_x'] and c == plots['p1'])) for c in cur_cols}
-            nextra_ = [[e[0], {c: nice(rng, 1e-3, 1e5, 3) for c in cur_cols}] for e in cur_extra]
+            ncols_ = {c: colvals(rng, n, signed=not (plots and plots['log_x'] and c == plots['p1'])) for c in cur_cols}
+            nextra_ = [[e[0], {c: (float(rng.randint(100000, 200000)) if intcols else nice(rng, 1e-3, 1e5, 3)) for c in cur_cols}] for e in cur_extra]
             spare = [c for c in COLNAMES if c not in ncols_]
             if spare and rng.random() < 0.35:
-                ncols_[spare[0]] = distinct_values(rng, n)
+                ncols_[spare[0]] = colvals(rng, n)
                 for e in nextra_:
-                    e[1][spare[0]] = nice(rng, 1e-3, 1e5, 3)
+                    e[1][spare[0]] = float(rng.randint(100000, 200000)) if intcols else nice(rng, 1e-3, 1e5, 3)
             ntable = cur_table[:]
             rng.shuffle(ntable)
             rewrites[str(ri)] = dict(cols=ncols_, table=ntable, extra=nextra_)
             cur_cols, cur_table, cur_extra = ncols_, ntable, nextra_
     return dict(names=names, conv=conv, table=table_names, cols=cols, extra=extra, additional=additional, wavs=wavs,
-                rewrites=rewrites,
+                rewrites=rewrites, table_repr=trepr, add_types=add_types,
                 models=models, mode=mode, form=form, sources=sources, sel=kind, target=target, more=more, extract=ex,
                 header=rng.random() < 0.7, suffix=rng.choice([None, '.txt']), as_tuple=rng.random() < 0.3,
                 plots=plots, defect=defect)
@@ -283,6 +319,14 @@ DIRECTED = [
     dict(n=6, ncols=3, nadd=1, mode='direct', form='list', sel='A', target=6, pad=True, special=True),
     dict(n=5, ncols=2, nadd=1, mode='direct', form='file', sel='N', target=4, pad=False, special=True, nextra=1),
 ]
+for _pos in ('first', 'middle', 'last'):
+    DIRECTED += [dict(n=5, ncols=3, nadd=1, mode='direct', form='list', sel='A', target=5, pad=True, special=False,
+                      name_pos=_pos, col_dtype='f8', extract='all', add_type='float'),
+                 dict(n=4, ncols=2, nadd=2, mode='fitter', form='file', sel='N', target=3, pad=False, special=False,
+                      name_pos=_pos, col_dtype='f4', extract='all', add_type='int_first')]
+for _t in ('int_first', 'np_int', 'float32', 'bool', 'mixed'):
+    DIRECTED.append(dict(n=6, ncols=2, nadd=2, mode='direct', form='single', sel='A', target=6, special=False, add_type=_t,
+                         col_dtype=('i4' if _t == 'bool' else 'i8' if _t == 'mixed' else 'f8')))
 # call histories on the same input: narrow -> wide, wide -> narrow, repeated, three rounds; every input form
 for _form in ('single', 'list', 'file'):
     DIRECTED += [
@@ -332,18 +376,34 @@ def view(case, rw):
     return dict(case, cols=rw['cols'], table=rw['table'], extra=rw['extra'])
 
 
+def table_repr(case):
+    return case.get('table_repr') or dict(name_dtype='S', name_pos='first', col_dtype='f8')
+
+
+def colorder(case):
+    """all column names of parameters.fits in file order (MODEL_NAME first, in the middle or last)"""
+    keys = list(case['cols'])
+    k = {'first': 0, 'middle': (len(keys) + 1) // 2, 'last': len(keys)}[table_repr(case)['name_pos']]
+    return keys[:k] + ['MODEL_NAME'] + keys[k:]
+
+
 def write_table(case, md):
-    tv = table_values(case)
+    tv = table_values(case, stored=False)
     cols = list(case['cols'])
-    pk.write_parameters(md, case['table'], {c: [tv[t.strip()][j] for t in case['table']] for j, c in enumerate(cols)})
+    order = write_table_repr(md, case['table'], {c: [tv[t.strip()][j] for t in case['table']] for j, c in enumerate(cols)},
+                             **table_repr(case))
+    assert order == colorder(case)
 
 
-def table_values(case):
-    """the original parameter table, by (stripped) model name: name -> [value per column]"""
+def table_values(case, stored=True):
+    """the original parameter table, by (stripped) model name: name -> [value per column]; `stored`: the numbers as the
+    column dtype of the file holds them (float32 columns hold the nearest float32)"""
     cols = list(case['cols'])
-    t = {nme: [fv(case['cols'][c][i]) for c in cols] for i, nme in enumerate(case['names'])}
+    dt = table_repr(case)['col_dtype']
+    conv = (lambda v: float(np.array(v, dtype=float).astype(dt))) if stored else (lambda v: v)
+    t = {nme: [conv(fv(case['cols'][c][i])) for c in cols] for i, nme in enumerate(case['names'])}
     for nme, vals in case.get('extra', []):
-        t[nme] = [fv(vals[c]) for c in cols]
+        t[nme] = [conv(fv(vals[c])) for c in cols]
     return t
 
 
@@ -525,8 +585,33 @@ def make_input(case, d, infos):
     return tuple(infos) if case['as_tuple'] else list(infos)
 
 
+def typed(v, kind, i):
+    """the object the user puts into the dictionary for the number `v` (entry `i` of the dictionary)"""
+    v = fv(v)
+    if kind == 'int_first':
+        return int(v) if i == 0 else v
+    if kind == 'np_int':
+        return [np.int64, np.int32, np.int16][i % 3](v)
+    if kind == 'float32':
+        return np.float32(v)
+    if kind == 'bool':
+        return [bool(v), np.bool_(v)][i % 2]
+    if kind == 'mixed':
+        return [int, np.float32, float, np.int64, np.float64][i % 5](v) if float(v) == int(v) else [np.float32, float, np.float64][i % 3](v)
+    return v
+
+
 def additional_arg(case):
-    return {k: {n: fv(v) for n, v in d.items()} for k, d in case['additional'].items()}
+    """the `additional=` argument as the user types it: floats, or (per dictionary) Python ints, numpy integers,
+    float32, bools, mixtures"""
+    kinds = case.get('add_types', {})
+    return {k: {n: typed(v, kinds.get(k, 'float'), i) for i, (n, v) in enumerate(d.items())}
+            for k, d in case['additional'].items()}
+
+
+def additional_values(case):
+    """the numbers those objects stand for"""
+    return {k: {n: float(v) for n, v in d.items()} for k, d in additional_arg(case).items()}
 
 
 def prepared_table(md):
@@ -639,6 +724,7 @@ def call_all(case, d, md, src, names_of_sources, sel):
 
 
 def static_branches(case):
+    tr_ = table_repr(case)
     names = case['names']
     n = len(names)
     cols = list(case['cols'])
@@ -655,6 +741,8 @@ def static_branches(case):
         br.add('table_not_sorted')
     if case.get('extra'):
         br.add('extra_table_rows')
+    br |= {'table_names_' + tr_['name_dtype'], 'model_name_column_' + tr_['name_pos'], 'column_dtype_' + tr_['col_dtype'].strip('>') + ('_bigendian' if tr_['col_dtype'].startswith('>') else '')}
+    br |= {'additional_typed_' + v for v in case.get('add_types', {}).values()}
     flat = [v for c in cols for v in case['cols'][c]]
     if 'nan' in flat:
         br.add('param_nan')
@@ -730,6 +818,8 @@ def check_row(row, want, fmts):
     if len(row) != len(want):
         return ('layout', '%d tokens, expected %d' % (len(row), len(want)))
     for tok, w, f in zip(row, want, fmts):
+        if f == 'skip':
+            continue
         if f is None:
             if tok != str(w):
                 return ('value', 'token %r, expected %r' % (tok, w))
@@ -744,7 +834,7 @@ def check_round(case, ranked, sel, out, br):
     names = case['names']
     n = len(names)
     cols = list(case['cols'])
-    add = additional_arg(case)
+    add = additional_values(case)
     addk = list(add)
     relaxed = 0
     fails, layout = [], []
@@ -763,10 +853,16 @@ def check_round(case, ranked, sel, out, br):
     # the printed labels say which column is which: values are compared under their own label; a consistent
     # re-ordering of labels and values is a layout difference only
     labels = want_head[5:]
-    order_wp = head[5:] if sorted(head[5:]) == sorted(labels) and len(set(labels)) == len(labels) else labels
-    order_wr = groups[3:] if sorted(groups[3:]) == sorted(labels) and len(set(labels)) == len(labels) else labels
-    pos_wp = [labels.index(l) for l in order_wp]
-    pos_wr = [0, 1, 2] + [3 + labels.index(l) for l in order_wr]
+
+    def by_label(printed):
+        """for every printed column label: the index of the parameter it names, or None for a label that names no
+        parameter (such a column cannot be checked: the header mismatch is reported as layout)"""
+        if len(printed) != len(labels) or len(set(labels)) != len(labels):
+            return list(range(len(labels))), labels
+        return [labels.index(l) if l in labels else None for l in printed], printed
+    pos_wp, order_wp = by_label(head[5:])
+    pos_wr_, order_wr = by_label(groups[3:])
+    pos_wr = [0, 1, 2] + [None if j is None else 3 + j for j in pos_wr_]
     ks = []
     for si, r in enumerate(ranked):
         k, marg = expected_count(sel, r['chi2'], r['n_data'])
@@ -784,8 +880,8 @@ def check_round(case, ranked, sel, out, br):
             fails.append('write_parameters source line (%r, n_data %d, n_fits %d); expected (%r, %d, %d) for selector %r'
                          % (b['name'], b['n_data'], b['n_fits'], r['name'], r['n_data'], k, sel))
         for i, row in enumerate(b['rows'][:k]):
-            want = [i + 1, sel_names[i], r['chi2'][i], r['av'][i], r['sc'][i]] + [exp_rows[i][j] for j in pos_wp]
-            res = check_row(row, want, ['%d', None, '%10.3f', '%10.3f', '%10.3f'] + ['%10.3e'] * npar)
+            want = [i + 1, sel_names[i], r['chi2'][i], r['av'][i], r['sc'][i]] + [None if j is None else exp_rows[i][j] for j in pos_wp]
+            res = check_row(row, want, ['%d', None, '%10.3f', '%10.3f', '%10.3f'] + ['skip' if j is None else '%10.3e' for j in pos_wp])
             if res:
                 shown = row[1] if len(row) > 1 else None
                 msg = ('write_parameters source %r fit %d: printed %r (%s); fit %d is model %r whose table row + '
@@ -799,11 +895,13 @@ def check_round(case, ranked, sel, out, br):
                          % (rr['name'], rr['n_data'], rr['n_fits'], r['name'], r['n_data'], k))
         series = [list(r['chi2'][:k]), list(r['av'][:k]), list(r['sc'][:k])] + \
                  [[row[j] for row in exp_rows] for j in range(npar)]
-        series = [series[j] for j in pos_wr]
+        series = [None if j is None else series[j] for j in pos_wr]
         if len(rr['trip']) != len(series) or any(len(t) != 3 for t in rr['trip']):
             layout.append('write_parameter_ranges source %r: %d groups of tokens, expected %d triples' % (r['name'], len(rr['trip']), len(series)))
         else:
             for gi, (t, s) in enumerate(zip(rr['trip'], series)):
+                if s is None:
+                    continue
                 if k == 0:
                     if any(tok_num(x) is not None for x in t):
                         fails.append('write_parameter_ranges source %r group %d: numbers %r printed for no selected fit' % (r['name'], gi, t))
@@ -820,7 +918,7 @@ def check_round(case, ranked, sel, out, br):
                                  % (r['name'], gi, (['chi2', 'av', 'scale'] + order_wr)[gi], t, k, [('%10.3e' % w).strip() for w in want3]))
         # ---- extract_parameters
         ex = out['ex'][r['name']]
-        pars = (['MODEL_NAME'] + cols) if case['extract'] == 'all' else list(case['extract'])
+        pars = colorder(case) if case['extract'] == 'all' else list(case['extract'])
         if case['header']:
             if not ex or ex[0] != ['CHI2', 'AV', 'SC'] + pars:
                 layout.append('extract_parameters header %r, expected %r' % (ex[:1], ['CHI2', 'AV', 'SC'] + pars))
@@ -839,9 +937,9 @@ def check_round(case, ranked, sel, out, br):
         same_rows = len(ft['rows']) == len(exp_rows) and all(
             len(a) == len(b_) and all((x == y) or (math.isnan(x) and math.isnan(y)) for x, y in zip(a, b_))
             for a, b_ in zip(ft['rows'], exp_rows))
-        if ft['names'] != list(sel_names) or not same_rows or ft['cols'] != ['MODEL_NAME'] + cols + addk:
+        if ft['names'] != list(sel_names) or not same_rows or ft['cols'] != colorder(case) + addk:
             fails.append('filter_table source %r: columns %r names %r rows %r; expected %r %r %r'
-                         % (r['name'], ft['cols'], ft['names'], ft['rows'], ['MODEL_NAME'] + cols + addk,
+                         % (r['name'], ft['cols'], ft['names'], ft['rows'], colorder(case) + addk,
                             list(sel_names), exp_rows))
         # ---- the parameter plots
         if 'plots' in out:
@@ -914,7 +1012,7 @@ ERR_CLASS = {'dupColumn': 'Exception', 'sortFailed': 'Exception', 'keyError': 'K
 
 def model_filter_full(case, cols, mn, prep=1):
     """driver `filtertablefull`; returns ('ok', positions, names, extras) or ('err', kind)"""
-    add = additional_arg(case)
+    add = additional_values(case)
     line = ['filtertablefull %d' % prep, names_line(cols), names_line(case['table']), names_line(mn), str(len(add))]
     for a, dct in add.items():
         line += [enc(a), str(len(dct))]
@@ -1023,7 +1121,7 @@ def compare_model(case, obs, mod):
 
 def model_round(case, obs):
     drv = common.driver()
-    add = additional_arg(case)
+    add = additional_values(case)
     addk = list(add)
     cols = list(case['cols'])
     tv = table_values(case)
